@@ -64,6 +64,8 @@ func init() {
 			ruleMatchersWriteOnAccept(c, "R2")
 			ruleVersionOrderKept(c, "R4")
 			ruleReadersWriteNothing(c, "R5", "hosts")
+			ruleConstructorsOwnTheirLists(c, "R6")
+			ruleHeaderVersionLookup(c, "R7")
 		},
 	})
 }
@@ -529,12 +531,27 @@ func rulePathVersion(c *Ctx, rule string) {
 	// constructor: stored versions went through both normalisation steps
 	ctor := c.P.MustFunc("mux.NewPathVersion")
 	found := false
+	// the list the matcher keeps: the parameter itself, or a slice of the constructor's own that is filled per element
+	var kept ssa.Value
 	an.AllInstrs(ctor, func(in ssa.Instruction) {
+		if _, field, val, ok := fieldStoreAny(in); ok && field == "versions" {
+			kept = val
+		}
+	})
+	isElemStore := func(in ssa.Instruction) bool {
 		st, ok := in.(*ssa.Store)
 		if !ok {
-			return
+			return false
 		}
-		if _, isIA := st.Addr.(*ssa.IndexAddr); !isIA || an.AP(st.Addr) != "p:version[]" {
+		ia, isIA := st.Addr.(*ssa.IndexAddr)
+		if !isIA {
+			return false
+		}
+		return an.AP(st.Addr) == "p:version[]" || (kept != nil && (ia.X == kept || an.AP(ia.X) == an.AP(kept)))
+	}
+	an.AllInstrs(ctor, func(in ssa.Instruction) {
+		st, ok := in.(*ssa.Store)
+		if !ok || !isElemStore(in) {
 			return
 		}
 		found = true
@@ -551,12 +568,10 @@ func rulePathVersion(c *Ctx, rule string) {
 			path := (&an.Query{
 				TargetEdge: loopBackEdge(l),
 				Block: func(in ssa.Instruction) bool {
-					st, ok := in.(*ssa.Store)
-					if !ok {
+					if _, ok := in.(*ssa.Store); !ok {
 						return in == e
 					}
-					_, isIA := st.Addr.(*ssa.IndexAddr)
-					return isIA && an.AP(st.Addr) == "p:version[]"
+					return isElemStore(in)
 				},
 			}).Search(an.After(e))
 			c.R.Add(rule, c.fk(ctor), "store:version[i]/on-every-path", c.pos(e), path == nil, ifelse(path == nil, "every version is written back after normalisation", "a version can pass through the constructor loop without its normalised form being stored (for example one that already ends in '/' but lacks the leading '/')"))
